@@ -247,6 +247,49 @@ def shared_blob_crash(out, grog, harness, tier):
     return stats
 
 
+def shared_blob_fault(out, grog, harness, tier):
+    """Two independent targets of one build produce a byte-identical 30 MB blob and complete concurrently (num_workers=2); ONE storage
+    fault hits a rename inside the cache (the n-th renameat of the process fails with EIO, n = 1..4: the blob of whichever target
+    got there first, the other's, a result).  Whatever the build then reports, the offline audit demands that every visible result
+    references blobs that are there -- a writer that waited for somebody else's write of the same digest must not take its failure
+    for a success."""
+    if not strace_ok():
+        return {"available": False}
+    base = os.path.join(vlib.scratch(), "c07sharedfault")
+    shutil.rmtree(base, ignore_errors=True)
+    stats = {"available": True, "runs": 0, "faults_that_hit_the_cache": 0, "builds_failed": 0}
+    for n in ((1, 2, 3, 4) if tier == "quick" else tuple(range(1, 9))):
+        for size in ((30000000,) if tier == "quick" else (30000000, 3000)):
+            d = os.path.join(base, "n%d-%d" % (n, size))
+            ws, root = os.path.join(d, "ws"), os.path.join(d, "root")
+            os.makedirs(os.path.join(ws, "p"), exist_ok=True); os.makedirs(root, exist_ok=True)
+            targets = [{"name": "t%d" % i, "command": "head -c %d /dev/zero > big%d.out" % (size, i), "outputs": ["big%d.out" % i]} for i in (0, 1)]
+            json.dump({"targets": targets}, open(os.path.join(ws, "p", "BUILD.json"), "w"))
+            open(os.path.join(ws, "grog.toml"), "w").write("num_workers = 2\n")
+            cdir = store_ws.cache_dir(root, ws)
+            slog = os.path.join(d, "strace.txt")
+            rc, secs, _ = store_ws.grog(grog, ws, root, timeout=60,
+                                        prefix=["strace", "-f", "-b", "execve", "-y", "-o", slog, "-e", "trace=renameat,rename,renameat2",
+                                                "-e", "inject=renameat,rename,renameat2:error=EIO:when=%d" % n])
+            stats["runs"] += 1
+            hit = injected_calls(slog, "eio")
+            in_cache = any(cdir in h for h in hit)
+            stats["faults_that_hit_the_cache"] += in_cache
+            stats["builds_failed"] += (rc != 0)
+            rp = {"workspace": {"targets": targets, "num_workers": 2}, "fault": "renameat #%d of the process fails with EIO" % n, "hit": hit[:2], "exit": rc}
+            if rc == "timeout":
+                out.violation("grog hangs when rename #%d inside the cache fails while two targets store the same blob" % n, rp)
+                return stats
+            if in_cache:
+                au = store_ws.audit(harness, cdir)
+                for pr in au["problems"]:
+                    out.violation("two targets of one build share a blob and ONE rename in the cache fails (rename #%d): %s" % (n, pr[:260]),
+                                  dict(rp, problem=pr, audit={"cas": au["cas"], "targets": au["targets"], "tmp": au["tmp"]}))
+                    return stats
+            shutil.rmtree(d, ignore_errors=True)
+    return stats
+
+
 def interrupted_blob_write(out, grog, harness, tier):
     """A build is INTERRUPTED (SIGINT / SIGTERM: the graceful path, contexts are cancelled, deferred code runs) while a large
     output is being copied into the cache (a cas/tmp-* file exists).  Afterwards the offline audit demands that no blob is
@@ -336,6 +379,7 @@ def run(out, tier):
         return
     grog = vlib.build_grog()
     inproc["shared_blob_crash"] = shared_blob_crash(out, grog, harness, tier)
+    inproc["shared_blob_fault"] = shared_blob_fault(out, grog, harness, tier)
     inproc["interrupted_blob_write"] = interrupted_blob_write(out, grog, harness, tier)
     r = vlib.Rng(vlib.seed() * 104729 + 7)
     base = os.path.join(vlib.scratch(), "c07")
